@@ -67,3 +67,26 @@ Theorem C16_gen : forall ds v data,
   gen_fragment ds v data FClone = [IClone v (map (fun i => (nm ds i, un ds i)) data)].
 Proof. reflexivity. Qed.
 Print Assumptions C16_gen.
+
+(* ... at any point of a record's life: after ANY chain of conversions (complete or uninit-then-filled forms) with any
+   reads and writes in between (Proofs/ChainU.v), the clone of the record reached is a record of the last variant whose
+   every field has the payload of the closed-form value `uchain_vals` computed from the requests alone *)
+From Truc.Proofs Require Import Chain ChainU.
+Theorem C16_clone_after_chain : forall ds TI rt A cap, rt_ok rt = true ->
+  forall (clone_val payload : nat -> nat), (forall x, payload (clone_val x) = payload x) ->
+  forall (stages : list ustage) P vals b v,
+  layout_ok ds TI A cap P -> uchain_ok ds TI A cap P stages -> holds ds TI cap A P vals b ->
+  layout_ok ds TI A cap (ulast_data P stages) ->
+  exists bf d r c,
+    uchain_run ds TI rt A cap b stages = Ok (bf, d, r) /\
+    op_new ds TI rt A cap v (ulast_data P stages) (cloned ds clone_val (uchain_vals ds vals stages)) = Ok (ORecord c, []) /\
+    forall i m, In i (ulast_data P stages) ->
+      exists x, op_get ds TI rt c i m = Ok (Some x) /\ payload x = payload (uchain_vals ds vals stages i).
+Proof.
+  intros ds TI rt A cap RT clone_val payload Hp stages P vals b v LP Hc H LL.
+  destruct (uchain_values ds TI rt A cap RT stages P vals b LP Hc H) as (bf & d & r & E & Hf).
+  destruct (C16_equal ds TI rt A cap RT (ulast_data P stages) LL clone_val payload Hp v (uchain_vals ds vals stages) bf Hf)
+    as (c & En & _ & Hg).
+  exists bf, d, r, c. auto.
+Qed.
+Print Assumptions C16_clone_after_chain.
